@@ -258,7 +258,7 @@ def check_case(case, ctx):
 
 
 def plan(tier, seed):
-    n, per = (96, 6) if tier == 'quick' else (1600, 50)
+    n, per = (96, 6) if tier == 'quick' else (800, 50)
     specs = [{'kind': 'partial', 'lo': lo, 'hi': lo + per, 'tier': tier}
              for lo in range(0, n, per)]
     n, per = (120, 60) if tier == 'quick' else (1600, 200)
